@@ -11,7 +11,7 @@ numbers.Number.register(SV)
 
 KEYS = [None, 'a', 'x_1', 'x_2', 7]
 DISTS = ['range', 'frozen', 'number', 'link:a', 'link:x_1', 'link:zz', 'bad',
-         'frozen_shared']
+         'frozen_shared', 'bad_tuple_hi', 'bad_tuple_lo']
 
 
 class Frozen(object):
@@ -108,6 +108,11 @@ def declare(W, cfg):
             payload = dist
         elif kind.startswith('link:'):
             dist, payload = kind[5:], None
+        elif kind == 'bad_tuple_hi':
+            # a range whose bound has the wrong type
+            dist, payload = (W.real('lo_%d' % step), '1'), None
+        elif kind == 'bad_tuple_lo':
+            dist, payload = (None, W.real('hi_%d' % step)), None
         else:
             dist, payload = [0, 1], None
         keys0, dists0 = list(P.keys), list(P.dists)
